@@ -20,8 +20,10 @@ GUARD = "PARMCB_VERIF"
 BASE_FLAGS = ["-std=c++14", "-O2", "-DNDEBUG", "-w", "-D" + GUARD]
 ASAN_FLAGS = ["-std=c++14", "-O1", "-g", "-fno-omit-frame-pointer", "-w", "-D" + GUARD, "-DNDEBUG", "-DVH_TOUCH_RESULTS",
               "-fsanitize=address,undefined", "-fno-sanitize-recover=undefined"]
-SAN_ENV = {"ASAN_OPTIONS": "exitcode=67:detect_leaks=1:abort_on_error=0:allocator_may_return_null=1:detect_stack_use_after_return=1",
-           "UBSAN_OPTIONS": "exitcode=67:halt_on_error=1:print_stacktrace=1", "LSAN_OPTIONS": "exitcode=0"}
+# NB: exitcode is a flag shared by all sanitizer runtimes in a process (the last *_OPTIONS parsed wins), so it is set once.
+# Leaks are checked explicitly after every work unit (__lsan_do_recoverable_leak_check), not at process exit.
+SAN_ENV = {"ASAN_OPTIONS": "exitcode=67:detect_leaks=1:leak_check_at_exit=0:abort_on_error=0:allocator_may_return_null=1:detect_stack_use_after_return=1",
+           "UBSAN_OPTIONS": "halt_on_error=1:print_stacktrace=1"}
 
 
 class HarnessError(Exception):
@@ -202,10 +204,14 @@ class Check:
         self.deadline = None
         self.notes = []
 
+    def builds_done(self):
+        """The exploration deadline counts from here: compile time (cold caches, scratch copies) must not eat the exploration budget."""
+        self.t_explore = time.time()
+
     def remaining(self, floor=5.0):
         if self.deadline is None:
             return None
-        return max(floor, self.deadline - (time.time() - self.t0))
+        return max(floor, self.deadline - (time.time() - getattr(self, "t_explore", self.t0)))
 
     def add_run(self, r, bound, classes=None, replay=None):
         """Merge one harness summary. classes: only violations whose class is in this set belong to this
